@@ -84,7 +84,7 @@ func (u *Universe) SelfTest() error {
 	// definitions straight from MS-CIFS 2.2.1: SMB_DATE 1980-01-01 = 0x0021; 2107-12-31 = 0xFF9F; string formats
 	for _, d := range []struct {
 		y, m, d int
-		w      []byte
+		w       []byte
 	}{{1980, 1, 1, []byte{0x21, 0x00}}, {2107, 12, 31, []byte{0x9F, 0xFF}}, {1999, 12, 31, []byte{0x9F, 0x27}}} {
 		v := reflect.New(u.ByName("SetInformation2Request").FieldByName("CreateDate").Type).Elem()
 		setDate(d.y, d.m, d.d)(v)
